@@ -142,3 +142,13 @@ add("C15", "differential runtime oracle: real load_training_set vs a 15-line "
     "agreement with the reference; names, pairing, weights).",
     "n >= 2 rows, >= 1 selected column, columns consisting only of +-inf "
     "are undefined by the statement and skipped (counted).")
+add("C19", "boundary monitor on the CLI profile (file text read back through "
+    "new Profile objects after every write), scripted interactive sessions "
+    "through a replaced builtins.input with per-prompt oracle, and real batch "
+    "fits (fit_perform) on generated folders compared row by row with fits "
+    "computed by the harness",
+    "Held (apart from the listed known finding) on ~2300 set/get round "
+    "trips, ~1400 prompts of scripted sessions and the batch fits observed.",
+    "Preprocessing answers restricted to valid orders containing "
+    "compute_tip_position; batch fits judged only for profiles whose "
+    "interval fits every curve of the folder.")
